@@ -293,8 +293,11 @@ def r3_attribution(ctx):
     nm = [norm(v) for s_, v in local_defs(so, "name") if v is not None]
     ok = ok and set(nm) == {"f'{prefix}_{valid_name}'", "valid_name"}
     fc = [c for c in calls_in(so.node) if dotted(c.func) == "func"]
-    ok = ok and len(fc) == 3 and all(dotted(kw(c, "name")) == "name" and dotted(kw(c, "run_number")) == "run_number" and norm(kw(c, "current_output_folder")) == "self.current_output_folder" for c in fc)
-    ok = ok and all(norm(kw(c, "data")) in ("data", "rescaled_data") for c in fc)
+    ok = ok and len(fc) >= 1 and all(dotted(kw(c, "name")) == "name" and dotted(kw(c, "run_number")) == "run_number" and norm(kw(c, "current_output_folder")) == "self.current_output_folder" for c in fc)
+    # the written data derives from the value read under valid_name (directly, rescaled, or through a named copy)
+    from sa.astutil import flow_exprs as _fx
+
+    ok = ok and all(kw(c, "data") is not None and "value" in _fx(so, kw(c, "data"))[0] for c in fc)
     fd = [v for s_, v in local_defs(so, "func") if v is not None]
     ok = ok and len(fd) == 1 and norm(fd[0]) == "save_methods[out_format]"
     ctx.check(ok, so.qual, "value read under valid_name is written under a name derived from valid_name with the run's number and format" if ok else "Outputs.save_to_file can write a bucket under another bucket's / run's name", where=so, node=so.node)
@@ -327,9 +330,14 @@ def r4_completeness_and_tables(ctx):
     # every written file is reported: accumulated per bucket in a mapping, all entries used
     sf = ctx.func(f"{OU}:save_to_files")
     acc = None
+    via_any_setdefault = False
     for c in calls_in(sf.node):
-        if isinstance(c.func, ast.Attribute) and c.func.attr == "append" and isinstance(c.func.value, ast.Subscript) and dotted(c.func.value.slice) == "bucket_name":
-            acc = dotted(c.func.value.value)
+        # d[bucket_name].append(x) on a defaultdict(list)   or   d.setdefault(bucket_name, []).append(x)
+        recv = c.func.value if isinstance(c.func, ast.Attribute) and c.func.attr == "append" else None
+        via_setdefault = isinstance(recv, ast.Call) and isinstance(recv.func, ast.Attribute) and recv.func.attr == "setdefault" and len(recv.args) == 2 and dotted(recv.args[0]) == "bucket_name" and isinstance(recv.args[1], ast.List) and not recv.args[1].elts
+        if (isinstance(recv, ast.Subscript) and dotted(recv.slice) == "bucket_name") or via_setdefault:
+            acc = dotted(recv.func.value) if via_setdefault else dotted(recv.value)
+            via_any_setdefault = via_any_setdefault or via_setdefault
             lp_ = enclosing_loop(c)
             okp = isinstance(lp_, ast.For) and dotted(lp_.iter) == "filenames" and not enclosing_tests(c, stop=lp_)
             ctx.check(okp, sf.qual + "#report-every-file", "every written file is recorded under its bucket" if okp else "not every written file is recorded for the report", where=sf, node=c)
@@ -337,7 +345,7 @@ def r4_completeness_and_tables(ctx):
         ctx.fail(sf.qual + "#report-every-file", "written files are not accumulated in a per-bucket mapping (entries of one bucket requested in several places can be lost from the report)", where=sf, node=sf.node)
     else:
         ad = [v for s_, v in local_defs(sf, acc) if v is not None]
-        okd = len(ad) == 1 and norm(ad[0]) in ("defaultdict(list)", "collections.defaultdict(list)")
+        okd = len(ad) == 1 and (norm(ad[0]) in ("defaultdict(list)", "collections.defaultdict(list)") or (via_any_setdefault and norm(ad[0]) in ("{}", "dict()")))
         from sa.astutil import accumulator_comp as _acc_comp
 
         cands = [d_ for d_ in ast.walk(sf.node) if isinstance(d_, ast.DictComp)]
